@@ -293,7 +293,7 @@ func spec_cand(l *LALR1, tr Transistor, a *Action, sy int) bool {
 
 // spec_step(l, q, X): the state reached from q on symbol X, -1 if there is no such transition.
 // spec_walk(l, q, r, k): the state reached from q over the first k right-hand-side symbols of rule r, -1 if undefined.
-func spec_step(l *LALR1, q int, x int) int       { panic("spec") }
+func spec_step(l *LALR1, q int, x int) int        { panic("spec") }
 func spec_walk(l *LALR1, q int, r int, k int) int { panic("spec") }
 
 //@ axiom STEP: forall l *LALR1, q, x, i int :: 0 <= i && i < len(l.trans) && l.trans[i].q == q && l.trans[i].sym_or_rule&CheckMask == 0 && int(l.trans[i].sym_or_rule) == x ==> spec_step(l, q, x) == l.trans[i].to
